@@ -23,6 +23,11 @@ pub enum Tree {
     R4(usize),
     R3(usize),
     Planned(PK, usize),
+    /// ADVERSARIAL leaf: a user-written, entirely safe `Fft` implementation that answers like a butterfly of length .0
+    /// while the composite is being constructed and like a butterfly of length .1 afterwards (len() and all three
+    /// scratch lengths change, calls are forwarded to the new butterfly). Safe code may do that; memory safety of the
+    /// composite must not depend on the inner transform keeping its promises (C03 only, no correctness oracle).
+    Shifty(usize, usize),
     MR(Box<Tree>, Box<Tree>),
     MRS(Box<Tree>, Box<Tree>),
     GT(Box<Tree>, Box<Tree>),
@@ -38,6 +43,7 @@ impl Tree {
     pub fn len(&self) -> usize {
         match self {
             Tree::Dft(n) | Tree::Bf(n) | Tree::R4(n) | Tree::R3(n) | Tree::Planned(_, n) => *n,
+            Tree::Shifty(a, _) => *a,
             Tree::MR(a, b) | Tree::MRS(a, b) | Tree::GT(a, b) | Tree::GTS(a, b) => a.len() * b.len(),
             Tree::Rader(a) => a.len() + 1,
             Tree::Blue(n, _) => *n,
@@ -47,7 +53,7 @@ impl Tree {
     }
     pub fn depth(&self) -> usize {
         match self {
-            Tree::Dft(_) | Tree::Bf(_) | Tree::R4(_) | Tree::R3(_) | Tree::Planned(..) => 0,
+            Tree::Dft(_) | Tree::Bf(_) | Tree::R4(_) | Tree::R3(_) | Tree::Planned(..) | Tree::Shifty(..) => 0,
             Tree::MR(a, b) | Tree::MRS(a, b) | Tree::GT(a, b) | Tree::GTS(a, b) => 1 + a.depth().max(b.depth()),
             Tree::Rader(a) | Tree::Blue(_, a) | Tree::R4B(_, a) | Tree::R3B(_, a) => 1 + a.depth(),
         }
@@ -59,6 +65,7 @@ impl Tree {
             Tree::R4(n) => format!("Radix4::new({})", n),
             Tree::R3(n) => format!("Radix3::new({})", n),
             Tree::Planned(pk, n) => format!("planned:{}({})", pk.name(), n),
+            Tree::Shifty(a, b) => format!("ShiftyFft(len {} while constructing then {})", a, b),
             Tree::MR(a, b) => format!("MixedRadix({},{})", a.describe(), b.describe()),
             Tree::MRS(a, b) => format!("MixedRadixSmall({},{})", a.describe(), b.describe()),
             Tree::GT(a, b) => format!("GoodThomasAlgorithm({},{})", a.describe(), b.describe()),
@@ -72,10 +79,67 @@ impl Tree {
     fn has_planned(&self) -> bool {
         match self {
             Tree::Planned(..) => true,
-            Tree::Dft(_) | Tree::Bf(_) | Tree::R4(_) | Tree::R3(_) => false,
+            Tree::Dft(_) | Tree::Bf(_) | Tree::R4(_) | Tree::R3(_) | Tree::Shifty(..) => false,
             Tree::MR(a, b) | Tree::MRS(a, b) | Tree::GT(a, b) | Tree::GTS(a, b) => a.has_planned() || b.has_planned(),
             Tree::Rader(a) | Tree::Blue(_, a) | Tree::R4B(_, a) | Tree::R3B(_, a) => a.has_planned(),
         }
+    }
+}
+
+impl Tree {
+    pub fn has_shifty(&self) -> bool {
+        match self {
+            Tree::Shifty(..) => true,
+            Tree::Dft(_) | Tree::Bf(_) | Tree::R4(_) | Tree::R3(_) | Tree::Planned(..) => false,
+            Tree::MR(a, b) | Tree::MRS(a, b) | Tree::GT(a, b) | Tree::GTS(a, b) => a.has_shifty() || b.has_shifty(),
+            Tree::Rader(a) | Tree::Blue(_, a) | Tree::R4B(_, a) | Tree::R3B(_, a) => a.has_shifty(),
+        }
+    }
+}
+
+/// false while composites are being constructed, true afterwards (one worker process = one thread of control)
+static SHIFTED: std::sync::atomic::AtomicBool = std::sync::atomic::AtomicBool::new(false);
+struct ShiftyFft<T> {
+    before: Arc<dyn Fft<T>>,
+    after: Arc<dyn Fft<T>>,
+}
+impl<T: FftNum> ShiftyFft<T> {
+    fn cur(&self) -> &Arc<dyn Fft<T>> {
+        if SHIFTED.load(std::sync::atomic::Ordering::SeqCst) {
+            &self.after
+        } else {
+            &self.before
+        }
+    }
+}
+impl<T: FftNum> rustfft::Length for ShiftyFft<T> {
+    fn len(&self) -> usize {
+        self.cur().len()
+    }
+}
+impl<T: FftNum> rustfft::Direction for ShiftyFft<T> {
+    fn fft_direction(&self) -> FftDirection {
+        self.before.fft_direction()
+    }
+}
+impl<T: FftNum> Fft<T> for ShiftyFft<T> {
+    fn process_with_scratch(&self, buffer: &mut [num_complex::Complex<T>], scratch: &mut [num_complex::Complex<T>]) {
+        self.cur().process_with_scratch(buffer, scratch)
+    }
+    fn process_outofplace_with_scratch(&self, input: &mut [num_complex::Complex<T>], output: &mut [num_complex::Complex<T>], scratch: &mut [num_complex::Complex<T>]) {
+        self.cur().process_outofplace_with_scratch(input, output, scratch)
+    }
+    fn process_immutable_with_scratch(&self, input: &[num_complex::Complex<T>], output: &mut [num_complex::Complex<T>], scratch: &mut [num_complex::Complex<T>]) {
+        self.cur().process_immutable_with_scratch(input, output, scratch)
+    }
+    fn get_inplace_scratch_len(&self) -> usize {
+        self.cur().get_inplace_scratch_len()
+    }
+    fn get_outofplace_scratch_len(&self) -> usize {
+        self.cur().get_outofplace_scratch_len()
+    }
+    fn get_immutable_scratch_len(&self) -> usize {
+        self.cur().get_immutable_scratch_len()
     }
 }
 
@@ -131,6 +195,7 @@ pub fn build<T: FftNum>(t: &Tree, d: FftDirection) -> Result<Arc<dyn Fft<T>>, St
             }
             Arc::new(Radix3::new(*n, d))
         }
+        Tree::Shifty(a, b) => Arc::new(ShiftyFft { before: butterfly::<T>(*a, d), after: butterfly::<T>(*b, d) }),
         Tree::Planned(pk, n) => {
             let mut pl = AnyPlanner::<T>::new(*pk).or_else(|| AnyPlanner::<T>::new(PK::Scalar)).unwrap();
             pl.plan(*n, d)
@@ -288,13 +353,72 @@ pub fn enumerate(tier: Tier) -> (Vec<Tree>, String) {
         }
     }
     trees.extend(d2);
+    // large instances of every constructor: composite length above 2^16 (index tables, 16-bit arithmetic); light check
+    let b = |t: Tree| Box::new(t);
+    let mut big: Vec<Tree> = vec![
+        Tree::MR(b(Tree::R4(1024)), b(Tree::R3(81))),
+        Tree::MRS(b(Tree::R4(1024)), b(Tree::R3(81))),
+        Tree::GT(b(Tree::R4(1024)), b(Tree::R3(81))),
+        Tree::GTS(b(Tree::R4(1024)), b(Tree::R3(81))),
+        Tree::GT(b(Tree::R3(243)), b(Tree::R4(512))),
+        Tree::GTS(b(Tree::R3(243)), b(Tree::R4(512))),
+        Tree::MRS(b(Tree::R3(243)), b(Tree::R4(512))),
+        Tree::GTS(b(Tree::R4(256)), b(Tree::Planned(PK::Scalar, 257))),
+        Tree::Rader(b(Tree::R4(65536))),
+        Tree::Rader(b(Tree::Planned(PK::Scalar, 147456))),
+        Tree::Blue(70001, b(Tree::R4(262144))),
+        Tree::Blue(65537, b(Tree::Planned(PK::Scalar, 131073))),
+        Tree::R4B(8, b(Tree::Bf(2))),
+        Tree::R4B(7, b(Tree::Bf(5))),
+        Tree::R3B(10, b(Tree::Bf(2))),
+        Tree::R3B(9, b(Tree::Bf(4))),
+        Tree::R4(131072),
+        Tree::R3(177147),
+    ];
+    if tier == Tier::Thorough {
+        big.extend(vec![
+            Tree::MR(b(Tree::R3(729)), b(Tree::R4(256))),
+            Tree::GTS(b(Tree::Planned(PK::Scalar, 625)), b(Tree::R4(128))),
+            Tree::GT(b(Tree::Planned(PK::Avx, 1025)), b(Tree::R4(128))),
+            Tree::MR(b(Tree::Planned(PK::Sse, 300)), b(Tree::Planned(PK::Scalar, 301))),
+            Tree::Rader(b(Tree::Planned(PK::Avx, 786432))),
+            Tree::Blue(200003, b(Tree::R4(524288))),
+            Tree::R4B(6, b(Tree::Planned(PK::Scalar, 37))),
+            Tree::R3B(7, b(Tree::Planned(PK::Scalar, 59))),
+        ]);
+    }
+    let n_big = big.len();
+    trees.extend(big);
+    // adversarial leaves (C03 only): every constructor over a safe `Fft` whose answers change after construction
+    let mut adv: Vec<Tree> = Vec::new();
+    for (x, y) in [(4usize, 8usize), (8, 4), (3, 5), (5, 3), (4, 32), (16, 2), (6, 7)] {
+        let sft = Tree::Shifty(x, y);
+        let mut sub: Vec<Tree> = Vec::new();
+        unary_over(&sft, 4096, &mut sub);
+        for partner in [Tree::Bf(3), Tree::Bf(4), Tree::Bf(5), Tree::Bf(7), Tree::R4(16)] {
+            binary_over(&sft, &partner, 4096, &mut sub);
+            binary_over(&partner, &sft, 4096, &mut sub);
+        }
+        // one more level: a well-behaved constructor around the composite that contains the shifty leaf
+        let mut sub2: Vec<Tree> = Vec::new();
+        for t1 in sub.iter().take(24) {
+            binary_over(t1, &Tree::Bf(2), 8192, &mut sub2);
+            binary_over(&Tree::Bf(7), t1, 8192, &mut sub2);
+        }
+        adv.extend(sub);
+        adv.extend(sub2);
+    }
+    let n_adv = adv.len();
+    trees.extend(adv);
     let desc = format!(
-        "leaves L = Dft(1..=32), Butterfly{{21 sizes}}, Radix4::new(2^0..2^5), Radix3::new(3^0..3^3); depth 0: L; depth 1: every ordered pair of L under MixedRadix / MixedRadixSmall / GoodThomasAlgorithm / GoodThomasAlgorithmSmall with product <= {m1}, every leaf under RadersAlgorithm, BluesteinsAlgorithm(len in {{1,2,3,largest prime,max,max-1}}), Radix4/Radix3::new_with_base(k<=2); planner-built scalar/SSE/AVX transforms of lengths {pl:?} as inner transforms of every unary constructor and paired with 6 small leaves; RadersAlgorithm(planner-built inner of length p-1) for EVERY prime 160 < p <= {rh} (light check: f64, impulses and exact sparse spikes); depth 2: every depth-1 tree (length <= 48) over the reduced leaf set {{B1,B2,B3,B4,Dft5,Dft6,B7,B8,Dft9,Radix4(16)}} under every unary constructor and paired (both orders) with every reduced leaf{t}, composite length <= {m2}. Trees outside a constructor's documented preconditions are not built.",
+        "leaves L = Dft(1..=32), Butterfly{{21 sizes}}, Radix4::new(2^0..2^5), Radix3::new(3^0..3^3); depth 0: L; depth 1: every ordered pair of L under MixedRadix / MixedRadixSmall / GoodThomasAlgorithm / GoodThomasAlgorithmSmall with product <= {m1}, every leaf under RadersAlgorithm, BluesteinsAlgorithm(len in {{1,2,3,largest prime,max,max-1}}), Radix4/Radix3::new_with_base(k<=2); planner-built scalar/SSE/AVX transforms of lengths {pl:?} as inner transforms of every unary constructor and paired with 6 small leaves; RadersAlgorithm(planner-built inner of length p-1) for EVERY prime 160 < p <= {rh} (light check: f64, impulses and exact sparse spikes); depth 2: every depth-1 tree (length <= 48) over the reduced leaf set {{B1,B2,B3,B4,Dft5,Dft6,B7,B8,Dft9,Radix4(16)}} under every unary constructor and paired (both orders) with every reduced leaf{t}, composite length <= {m2}. Trees outside a constructor's documented preconditions are not built. LARGE instances ({nb}): every binary constructor over Radix4(1024)xRadix3(81) and Radix3(243)xRadix4(512), GoodThomasAlgorithmSmall(Radix4(256), planned 257), RadersAlgorithm over Radix4(65536) and a planned 147456, BluesteinsAlgorithm(70001; Radix4(2^18)) and (65537; planned 131073), Radix4/Radix3::new_with_base with 7..10 layers, Radix4::new(2^17), Radix3::new(3^11) -- all above 2^16 points, light check (f64, 4 impulses + exact sparse spikes, 4 entry points, exact NaN-filled scratch, guard pages). ADVERSARIAL leaves ({na} trees, C03 only): every constructor over a safe user-written Fft whose len() and scratch lengths change after the composite was constructed (7 before/after pairs), alone, paired with 5 well-behaved leaves in both orders, and one level further in; all four entry points with the data/output/scratch lengths the composite advertises before and after the change, guard pages at both placements: panics are fine, a fatal signal or an unsafe-precondition abort is a violation.",
         m1 = maxlen1,
         pl = planned_lens,
         t = if tier == Tier::Thorough { " and with every other depth-1 tree" } else { "" },
         m2 = maxlen2,
-        rh = rader_hi
+        rh = rader_hi,
+        nb = n_big,
+        na = n_adv
     );
     (trees, desc)
 }
@@ -531,6 +655,74 @@ fn float_part<T: Real>(w: &mut W, tree: &Tree, tree_idx: usize, d: FftDirection,
     }
 }
 
+/// C03 for composites over an adversarial (safe, but promise-breaking) inner transform: no oracle but the memory monitor
+fn adversarial_part<T: Real>(w: &mut W, tree: &Tree, tree_idx: usize, d: FftDirection) {
+    use std::sync::atomic::Ordering::SeqCst;
+    let tycode = if T::NAME == "f32" { 32 } else { 64 };
+    let mut f = [-1i64; NFIELDS];
+    f[0] = 12;
+    f[1] = tree_idx as i64;
+    f[2] = tycode;
+    f[3] = if d == FftDirection::Forward { 0 } else { 1 };
+    f[4] = tree.len() as i64;
+    mem::set_current(&f);
+    SHIFTED.store(false, SeqCst);
+    let fft = match std::panic::catch_unwind(std::panic::AssertUnwindSafe(|| build::<T>(tree, d))) {
+        Ok(Ok(x)) => x,
+        _ => return, // outside preconditions, or a constructor assertion: nothing to run
+    };
+    let n0 = fft.len();
+    let adv0: Vec<usize> = Entry::ALL.iter().map(|e| e.scratch_len(fft.as_ref())).collect();
+    SHIFTED.store(true, SeqCst);
+    let n1 = std::panic::catch_unwind(std::panic::AssertUnwindSafe(|| fft.len())).unwrap_or(n0);
+    w.states += 1;
+    for (ei, e) in Entry::ALL.iter().enumerate() {
+        let adv1 = std::panic::catch_unwind(std::panic::AssertUnwindSafe(|| e.scratch_len(fft.as_ref()))).unwrap_or(adv0[ei]);
+        let mut dls = vec![n0, 2 * n0, n1, 2 * n1, 3 * n0];
+        dls.sort();
+        dls.dedup();
+        let mut sls = vec![adv0[ei], adv1, adv0[ei].max(adv1) + n0.max(n1), 4 * n0.max(n1) + 7];
+        sls.sort();
+        sls.dedup();
+        for &dl in &dls {
+            if dl == 0 || dl > 3 * 8192 {
+                continue;
+            }
+            for &sl in &sls {
+                for (pi, place) in Place::BOTH.iter().enumerate() {
+                    f[5] = ei as i64;
+                    f[6] = dl as i64;
+                    f[7] = if e.has_output() { dl as i64 } else { 0 };
+                    f[8] = sl as i64;
+                    f[9] = pi as i64;
+                    mem::set_current(&f);
+                    let data: &mut [C<T>] = w.a_in.slice(dl, *place);
+                    let out: &mut [C<T>] = w.a_out.slice(if e.has_output() { dl } else { 0 }, *place);
+                    let scr: &mut [C<T>] = w.a_scr.slice(sl, *place);
+                    let v = C::new(T::from64(0.5), T::from64(-0.25));
+                    data.iter_mut().for_each(|x| *x = v);
+                    out.iter_mut().for_each(|x| *x = v);
+                    scr.iter_mut().for_each(|x| *x = v);
+                    LAST_PANIC.with(|p| *p.borrow_mut() = None);
+                    let res = std::panic::catch_unwind(std::panic::AssertUnwindSafe(|| match e {
+                        Entry::Process => fft.process(data),
+                        Entry::InPlace => fft.process_with_scratch(data, scr),
+                        Entry::OutOfPlace => fft.process_outofplace_with_scratch(data, out, scr),
+                        Entry::Immut => fft.process_immutable_with_scratch(data, out, scr),
+                    }));
+                    w.evaluations += 1;
+                    w.nontrivial += 1;
+                    if res.is_err() {
+                        let extra = format!("|T={}|entry={}|data={}|out={}|scratch={}|place={}", T::NAME, e.name(), dl, f[7], sl, place.name());
+                        check_index_panic(tree, d, &extra);
+                    }
+                }
+            }
+        }
+    }
+    SHIFTED.store(false, SeqCst);
+}
+
 fn check_index_panic(tree: &Tree, d: FftDirection, extra: &str) {
     if let Some((file, line, msg)) = LAST_PANIC.with(|p| p.borrow_mut().take()) {
         let idx_file = ["array_utils.rs", "avx_vector.rs", "sse_vector.rs", "sse_utils.rs", "avx32_utils.rs", "avx64_utils.rs", "sse_common.rs"].iter().any(|s| file.ends_with(s));
@@ -551,7 +743,7 @@ pub fn worker_main(args: &[String]) -> i32 {
     install_worker_panic_hook();
     let seed: u64 = std::env::var("VERIF_SEED").ok().and_then(|s| s.parse().ok()).unwrap_or(20260923);
     let (trees, _) = enumerate(tier);
-    let maxn = trees.iter().map(|t| t.len()).max().unwrap_or(1);
+    let maxn = trees.iter().map(|t| t.len()).max().unwrap_or(1).max(3 * 8192);
     let bytes = (2 * maxn + 2) * 16;
     let mut w = W { a_in: Arena::new(bytes), a_out: Arena::new(bytes), a_scr: Arena::new(bytes * 8 + (1 << 16)), evaluations: 0, nontrivial: 0, states: 0, skipped_precond: 0, worst: 0.0 };
     let mut last_ref: Option<Ref> = None;
@@ -579,6 +771,11 @@ pub fn worker_main(args: &[String]) -> i32 {
             f[4] = n as i64;
             f[10] = idx as i64;
             mem::set_current(&f);
+            if tree.has_shifty() {
+                adversarial_part::<f64>(&mut w, tree, idx, d);
+                adversarial_part::<f32>(&mut w, tree, idx, d);
+                continue;
+            }
             // planner leaves only exist for f32/f64 SIMD planners; in the field they fall back to the portable planner
             let light = n > 2100;
             if !light {
